@@ -11,6 +11,7 @@ the fold with the loop's own index; (TOL) the ratio-sum test is a tolerance test
 default_rng(random_state).
 Not decided: uniformity of the shuffle (numpy).
 """
+import ast
 from .common import *
 from ..pred import poly, pkey, padd, pconst, pmul, resolve, conj
 from ..sym import kwargs_of
@@ -196,6 +197,22 @@ def run(prog, rep, tier):
             rep.unk("TOL.guard", fwhere(f, r.node), val)
         first = min([c.order for c in shuffles] or [10**9])
         rep.check("TOL.first", r.order < first and not r.loops, fwhere(f, r.node), "checked before anything is shuffled", "the ratio check does not precede the shuffling")
+    # ---- rounding written out by hand: int(x + 0.5) / (x + 0.5).astype(int) / np.floor(x + 0.5) round halves up, round() rounds them to even
+    seen_fns = {Q} | set(getattr(S, "visited_funcs", ())) | set(getattr(S, "fused_funcs", ()))
+    for qn in sorted(seen_fns):
+        g_ = prog.funcs.get(qn)
+        if g_ is None or g_.module is not f.module:
+            continue
+        for node in ast.walk(g_.node):
+            half = lambda e: isinstance(e, ast.BinOp) and isinstance(e.op, ast.Add) and any(isinstance(x, ast.Constant) and x.value == 0.5 for x in (e.left, e.right))
+            hit = None
+            if isinstance(node, ast.Call) and (dotted_of(node.func) or "") in ("int", "np.floor", "numpy.floor", "math.floor", "np.trunc", "numpy.trunc") and node.args and half(node.args[0]):
+                hit = node
+            if isinstance(node, ast.Call) and isinstance(node.func, ast.Attribute) and node.func.attr == "astype" and half(node.func.value) and node.args and \
+                    (dotted_of(node.args[0]) or "") in ("int", "np.int64", "np.intp", "numpy.int64"):
+                hit = node
+            if hit is not None:
+                rep.bad("SIZE.round", fwhere(g_, hit), "`%s` rounds halves up; fold sizes are round(len(sample) * ratio), which rounds halves to even (n = 5, ratios (0.5, 0.5): 3 + 2 instead of 2 + 3)" % norm(hit)[:70])
     # ---- loops
     loops = sorted([(k, v) for k, v in S.loopinfo.items() if v["func"] == Q], key=lambda kv: kv[0][1])
     if len(loops) != 2:
